@@ -21,7 +21,7 @@ func init() {
 	register(&Rule{Name: "PICK-CURRENT", Floor: 2,
 		Doc: "pickMethodHandler indexes the handlers map of its receiver snapshot by the requested name, picks within bounds, and answers Unimplemented exactly when no handler is left",
 		Run: rulePickCurrent})
-	register(&Rule{Name: "SLOT-CHECK", Floor: 2,
+	register(&Rule{Name: "SLOT-CHECK", Floor: 1,
 		Doc: "every write of a binding slot (path.methods[verb] / path.methodAll) in addRule is preceded on every path by the lookup of that slot, whose occupied branch returns (error for another method, nil for the same)",
 		Run: ruleSlotCheck})
 	register(&Rule{Name: "ADDITIONAL-BINDINGS", Floor: 1,
@@ -378,23 +378,40 @@ func ruleSlotCheck(r *Run) {
 		return false
 	}
 	n := 0
-	eachInstr(ar, func(in ssa.Instruction) {
-		isWrite, what := false, ""
+	slotWrite := func(in ssa.Instruction) (bool, string) {
 		switch x := in.(type) {
 		case *ssa.MapUpdate:
 			for _, mo := range p.origins(x.Map, originOpts{}) {
 				if loadsField(mo, methodsF) {
-					isWrite, what = true, "path.methods[verb]"
+					return true, "path.methods[verb]"
 				}
 			}
 		case *ssa.Store:
 			if fa, ok := x.Addr.(*ssa.FieldAddr); ok && fieldOfAddr(fa) == allF {
-				isWrite, what = true, "path.methodAll"
+				return true, "path.methodAll"
+			}
+		}
+		return false, ""
+	}
+	seenWhat := map[string]bool{}
+	eachInstr(ar, func(in ssa.Instruction) {
+		isWrite, what := slotWrite(in)
+		if !isWrite {
+			// a transparent helper that writes a slot (bind(verb, m)): the call is the write
+			if c, ok := in.(ssa.CallInstruction); ok {
+				if callee := c.Common().StaticCallee(); callee != nil && !c.Common().IsInvoke() && p.isTransparent(callee) {
+					p.eachInstrR(callee, func(x ssa.Instruction) {
+						if w, wh := slotWrite(x); w && !seenWhat[wh+p.Pos(in.Pos())] {
+							isWrite, what = true, wh
+						}
+					})
+				}
 			}
 		}
 		if !isWrite {
 			return
 		}
+		seenWhat[what+p.Pos(in.Pos())] = true
 		n++
 		// (a) a slot test dominates the write
 		tested := false
@@ -1074,16 +1091,16 @@ func ruleDefaultRoot(r *Run) {
 // store back into the options.
 func (p *Program) defaultRootByValue(fn *ssa.Function, mpF *types.Var) bool {
 	good := false
-	for _, g := range p.region(fn) {
-		hasHandle := false
-		eachInstr(g, func(in ssa.Instruction) {
-			if c, ok := in.(ssa.CallInstruction); ok && calleeName(c) == "(*net/http.ServeMux).Handle" {
-				hasHandle = true
-			}
-		})
-		if !hasHandle {
-			continue
+	hasHandle := false
+	p.eachInstrR(fn, func(in ssa.Instruction) {
+		if c, ok := in.(ssa.CallInstruction); ok && calleeName(c) == "(*net/http.ServeMux).Handle" {
+			hasHandle = true
 		}
+	})
+	if !hasHandle {
+		return false
+	}
+	for _, g := range p.region(fn) {
 		eachInstr(g, func(in ssa.Instruction) {
 			ia, ok := in.(*ssa.IndexAddr)
 			if !ok {
